@@ -25,6 +25,12 @@ func defectCatalogue() []defect {
 	return []defect{
 		{"wrong-key", true, func(c *Ctx, s *testService, r *recipe, d time.Duration) { r.tktKey = randKey(c, r.et) }},
 		{"wrong-kvno", true, func(c *Ctx, s *testService, r *recipe, d time.Duration) { r.kvno = s.kvno + 1 }},
+		{"kvno-plus-256", true, func(c *Ctx, s *testService, r *recipe, d time.Duration) { r.kvno = s.kvno + 256*(1+c.R.Intn(300)) }},
+		{"ctime-late-subsecond", true, func(c *Ctx, s *testService, r *recipe, d time.Duration) { r.ctime = r.ctime.Add(-d - 600*time.Millisecond) }},
+		{"end-outside-subsecond", true, func(c *Ctx, s *testService, r *recipe, d time.Duration) {
+			// ticket times have whole seconds on the wire: end lies between d+0.2s and d+1.2s in the past
+			r.end = r.now.Add(-d - 1200*time.Millisecond).Truncate(time.Second)
+		}},
 		{"wrong-etype", true, func(c *Ctx, s *testService, r *recipe, d time.Duration) {
 			r.encEType = map[int32]int32{17: 18, 18: 17, 19: 20, 20: 19, 23: 17, 16: 23}[r.et]
 		}},
@@ -290,7 +296,7 @@ func c01(c *Ctx) {
 var defectField = map[string]string{"start-outside": "start", "start-inside": "start", "start-absent": "start", "end-outside": "end", "end-inside": "end",
 	"flip-ticket": "tktcipher", "trunc-ticket": "tktcipher", "flip-auth": "authcipher", "trunc-auth": "authcipher",
 	"cname-mismatch": "authcname", "cname-prefix": "authcname", "cname-boundary": "authcname", "multi-component-client": "authcname", "invalid-flag": "flags", "other-flags": "flags",
-	"ctime-late": "ctime", "ctime-early": "ctime", "ctime-inside": "ctime", "wrong-key": "tktkey", "auth-key": "authkey"}
+	"ctime-late": "ctime", "ctime-early": "ctime", "ctime-inside": "ctime", "wrong-key": "tktkey", "auth-key": "authkey", "ctime-late-subsecond": "ctime", "end-outside-subsecond": "end", "kvno-plus-256": "kvno", "wrong-kvno": "kvno"}
 
 func defectIndex(cat []defect, name string) int {
 	for i := range cat {
